@@ -141,7 +141,7 @@ class _Reshape(Transform[GradientVectors, Gradients]):
 
     def _compute(self, gradient_vectors: GradientVectors) -> Gradients:
         gradients = {
-            key: gradient_vector.view(key.shape)
+            key: gradient_vector.view(key.shape).to(dtype=key.dtype)
             for key, gradient_vector in gradient_vectors.items()
         }
         return Gradients(gradients)
